@@ -1091,6 +1091,126 @@ func c20Round5(s *source, e *emitter) {
 	c20Calls(s, e, c20Dir+"format/format.go", "Source", "calls_Source", all)
 }
 
+
+// ---------------------------------------------------------------- round 5e: package-level tables stay constant
+//
+// The model treats token.HttpMethods / token.keywords as constants. Two facts make that true for the code, both extracted
+// as typed lists over ALL functions of the given files:
+//   spreadSites: call sites that pass a package-level slice of ANOTHER package with `...` (the callee receives the
+//                table itself, not a copy), with the name of the enclosing function;
+//   paramWrites: writes through a slice / variadic parameter or a local alias of one (x := p[a:b], x := p):
+//                p[i] = v, append(p…, …) (may write in place), copy(p, …), sort.*(p…).
+// While paramWrites is empty, no callee can change a table that a spread site hands to it.
+
+func c20SliceParams(fd *ast.FuncDecl) map[string]bool {
+	al := map[string]bool{}
+	if fd.Type.Params == nil {
+		return al
+	}
+	for _, f := range fd.Type.Params.List {
+		_, isEll := f.Type.(*ast.Ellipsis)
+		at, isArr := f.Type.(*ast.ArrayType)
+		if isEll || (isArr && at.Len == nil) {
+			for _, n := range f.Names {
+				al[n.Name] = true
+			}
+		}
+	}
+	return al
+}
+
+func c20AliasBase(e ast.Expr, al map[string]bool) (string, bool) {
+	switch x := e.(type) {
+	case *ast.Ident:
+		return x.Name, al[x.Name]
+	case *ast.SliceExpr:
+		return c20AliasBase(x.X, al)
+	case *ast.ParenExpr:
+		return c20AliasBase(x.X, al)
+	}
+	return "", false
+}
+
+func c20TableFacts(s *source, e *emitter, rels []string) {
+	var spreads, writes [][2]string
+	for _, rel := range rels {
+		f := s.file(rel)
+		if f == nil {
+			e.errors = append(e.errors, "file "+rel+" not found")
+			continue
+		}
+		pkgs := map[string]bool{}
+		for _, im := range f.Imports {
+			pth := strings.Trim(im.Path.Value, "\"")
+			base := pth[strings.LastIndex(pth, "/")+1:]
+			if im.Name != nil {
+				base = im.Name.Name
+			}
+			pkgs[base] = true
+		}
+		for _, d := range f.Decls {
+			fd, ok := d.(*ast.FuncDecl)
+			if !ok || fd.Body == nil {
+				continue
+			}
+			name := fd.Name.Name
+			if r := recvTypeName(fd); r != "" {
+				name = r + "." + name
+			}
+			al := c20SliceParams(fd)
+			ast.Inspect(fd.Body, func(n ast.Node) bool {
+				switch x := n.(type) {
+				case *ast.AssignStmt:
+					// aliases: y := p / p[a:b]
+					if len(x.Lhs) == len(x.Rhs) {
+						for i, r := range x.Rhs {
+							if _, isAl := c20AliasBase(r, al); isAl {
+								if id, isID := x.Lhs[i].(*ast.Ident); isID {
+									al[id.Name] = true
+								}
+							}
+						}
+					}
+					for _, l := range x.Lhs {
+						if ix, isIx := l.(*ast.IndexExpr); isIx {
+							if _, isAl := c20AliasBase(ix.X, al); isAl {
+								writes = append(writes, [2]string{name, c20Exact(s, x)})
+							}
+						}
+					}
+				case *ast.CallExpr:
+					fn := s.src(x.Fun)
+					if x.Ellipsis.IsValid() && len(x.Args) > 0 {
+						if sel, isSel := x.Args[len(x.Args)-1].(*ast.SelectorExpr); isSel {
+							if pk, isID := sel.X.(*ast.Ident); isID && pkgs[pk.Name] {
+								spreads = append(spreads, [2]string{name, c20Exact(s, x)})
+							}
+						}
+					}
+					if (fn == "append" || fn == "copy" || strings.HasPrefix(fn, "sort.") || strings.HasPrefix(fn, "slices.Sort") || fn == "slices.Reverse") && len(x.Args) > 0 {
+						if _, isAl := c20AliasBase(x.Args[0], al); isAl {
+							writes = append(writes, [2]string{name, c20Exact(s, x)})
+						}
+					}
+				}
+				return true
+			})
+		}
+	}
+	emit := func(lean, doc string, ps [][2]string) {
+		e.printf("/-- %s -/\ndef %s : List (String × String) := [", doc, lean)
+		for i, p := range ps {
+			if i > 0 {
+				e.printf(",")
+			}
+			e.printf("\n  (%s, %s)", leanString(p[0]), leanString(p[1]))
+		}
+		e.printf("]\n\n")
+	}
+	emit("spreadSites", "call sites that hand a package-level slice of another package to a variadic callee (enclosing function, call)", spreads)
+	emit("paramWrites", "writes through a slice / variadic parameter or a local alias of one (function, statement)", writes)
+}
+
 // c20FullExact is c20Full with literal-preserving source text.
 func (e *emitter) c20ExactDef(s *source, rel, goName, lean string) {
 	fd := s.findFunc(rel, goName)
@@ -1207,5 +1327,6 @@ func init() {
 		})
 		c20Round4(s, e)
 		c20Round5(s, e)
+		c20TableFacts(s, e, []string{c20Dir + "parser/parser.go", c20Dir + "scanner/scanner.go", c20Dir + "token/token.go", c20Dir + "format/format.go", c20Dir + "ast/ast.go", c20Dir + "ast/writer.go"})
 	})
 }
